@@ -174,7 +174,7 @@ def _fuzz_job(st, job):
         # abort / stack overflow / OOM: find the culprit index with a traced re-run, then regenerate its input
         req = (" ".join(["fuzz"] + [str(a) for a in args] + ["trace", str(len(payload))]) + "\n").encode() + payload
         try:
-            p = subprocess.run([st[variant].binary], input=req, capture_output=True, timeout=trace_s if e.rc == "watchdog" else core.CALL_TIMEOUT)
+            p = subprocess.run([st[variant].binary], input=req, capture_output=True, timeout=trace_s if e.rc == "watchdog" else core.CALL_TIMEOUT, preexec_fn=core.die_with_parent)
             err = p.stderr
         except subprocess.TimeoutExpired as te:
             err = te.stderr or b""
@@ -193,7 +193,7 @@ def _fuzz_job(st, job):
             g = gh.json("fuzz", [seed, idx, 1, maxlen, "gen"], payload)
             one = (" ".join(["fuzz", str(seed), str(idx), "1", str(maxlen), "only", str(len(payload))]) + "\n").encode() + payload
             try:
-                subprocess.run([st[variant].binary], input=one, capture_output=True, timeout=hang_s)
+                subprocess.run([st[variant].binary], input=one, capture_output=True, timeout=hang_s, preexec_fn=core.die_with_parent)
                 res.inconclusive.append("fuzz shard did not answer within the watchdog, but input %d alone finishes (overloaded machine?)" % idx)
             except subprocess.TimeoutExpired:
                 try:
